@@ -487,6 +487,12 @@ def run(chk):
         broken.append("hook-build-failed: " + blog[-600:])
     else:
         dis, s_recs, pl_recs, mw = correspondence(chk, binp, thorough)
+        # the buffer model of C14_*_keeps_feature_bits against hb_buffer_t (random operation sequences, masks included)
+        import bufcorr
+        bdis, bstats, _bsample = bufcorr.run(chk, binp, 3000 if thorough else 300, tag="c14buf", seed_offset=14)
+        chk.note("buffer_correspondence", bstats)
+        chk.add_eval(bstats["steps"], bstats["steps_followed_by_model"])
+        dis += bdis
         fails, known = impl_search(chk, binp, thorough, s_recs, pl_recs)
         fails += report_known(chk, binp, known, mw)
         ok2, binc, blog2 = C.cargo_build("checked", hooks=True)
